@@ -33,12 +33,35 @@ func ruleCopyToReleasesOnce(r *Report, rule string) {
 			acquire = c
 		}
 	}
+	// the acquisition may have been extracted into a helper of the same type (one level)
+	var helper *FuncInfo
+	var innerAcquire *ast.CallExpr
+	if acquire == nil {
+		for _, c := range callsIn(fi.Decl.Body) {
+			f := callee(info, c)
+			if f == nil {
+				continue
+			}
+			hf := p.funcs[funcName(f)]
+			if hf == nil || hf.Decl.Body == nil || hf.Pkg != fi.Pkg {
+				continue
+			}
+			for _, c2 := range callsIn(hf.Decl.Body) {
+				if f2 := callee(hf.Pkg.TypesInfo, c2); f2 != nil && f2.Name() == "CopyReader" {
+					helper, innerAcquire, acquire = hf, c2, c
+				}
+			}
+		}
+	}
 	if acquire == nil {
 		undecidedf("%s: CopyReader acquisition not found", fi.Name)
 	}
-	var reader types.Object
+	var reader, acqErr types.Object
 	for _, anc := range enclosing(fi.Decl.Body, acquire) {
-		if as, ok := anc.(*ast.AssignStmt); ok && len(as.Lhs) == 1 {
+		if as, ok := anc.(*ast.AssignStmt); ok && len(as.Lhs) >= 1 && len(as.Rhs) == 1 {
+			if helper != nil && len(as.Lhs) == 2 {
+				acqErr = objOf(info, as.Lhs[1]) // the helper reports "no reader" through its error result
+			}
 			reader = objOf(info, as.Lhs[0])
 		}
 	}
@@ -73,6 +96,9 @@ func ruleCopyToReleasesOnce(r *Report, rule string) {
 					if x, isEq, ok := nilTest(info, f.Expr); ok && objOf(info, x) == reader && (isEq == f.Truth) {
 						nilPath = true
 					}
+					if x, isEq, ok := nilTest(info, f.Expr); ok && acqErr != nil && objOf(info, x) == acqErr && (isEq != f.Truth) {
+						nilPath = true
+					}
 				}
 				if !nilPath {
 					okDefer = false
@@ -90,6 +116,17 @@ func ruleCopyToReleasesOnce(r *Report, rule string) {
 			open = true
 		}
 	}
+	if helper != nil {
+		r.Fn(helper)
+		hinfo := helper.Pkg.TypesInfo
+		hg := buildCFG(hinfo, helper.Decl.Body)
+		locked = lockHeldAt(hg, hinfo, innerAcquire, "mutex", "R")
+		for _, f := range hg.GuardsOf(innerAcquire) {
+			if f.Truth && isField(hinfo, f.Expr, "indexImpl", "open") {
+				open = true
+			}
+		}
+	}
 	r.Ob(rule, fi.Name+"/acquired-under-lock-on-open-index", acquire.Pos(), locked && open, "the backup starts under the handle's read lock on an open index (Close waits for it)")
 	// the copy uses the acquired reader
 	uses := false
@@ -101,6 +138,14 @@ func ruleCopyToReleasesOnce(r *Report, rule string) {
 		}
 	}
 	r.Ob(rule, fi.Name+"/copies-from-the-pinned-reader", acquire.Pos(), uses, "the data is copied through the pinned copy reader")
+	// the handle's read lock spans the whole copy: Close (which takes the write lock) waits for a running backup
+	for _, c := range callsIn(fi.Decl.Body) {
+		if f := callee(info, c); f != nil && f.Name() == "CopyTo" {
+			if sel, ok := ast.Unparen(c.Fun).(*ast.SelectorExpr); ok && objOf(info, sel.X) == reader {
+				r.Ob(rule, fi.Name+"/handle-lock-held-during-copy", c.Pos(), lockHeldAt(g, info, c, "mutex", "R"), "the copy itself runs under the handle's read lock: otherwise Close returns while a backup is in flight and the scheduled-copy protection of its files dies with the closed engine (a reopen purges files the backup still reads)")
+			}
+		}
+	}
 }
 
 // ruleCopyReadsOnlyPinned: functions reachable from IndexSnapshot.CopyTo (one
